@@ -93,14 +93,20 @@ CLI_TIERS = {
 
 
 # named deviations of the mechanism in XsStore (constant Dev) and the invariant TLC must report for each
-MODEL_DEVIATIONS = [("reg-before-refusal", "INV_Dump"), ("import-overwrites", "INV_Read")]
+MODEL_DEVIATIONS = [("reg-before-refusal", "INV_Dump", "MC_store_quick_ctx.cfg"),
+                    ("import-overwrites", "INV_Read", "MC_store_quick_ctx.cfg"),
+                    # a head:K append that does not queue the collector's check: the queue is empty but the topic is not trimmed
+                    ("head-check-skipped", "INV_Drained", "MC_store_quick_gc.cfg")]
+# liveness twin of the gc configuration (FairSpec = weak fairness of the collector's step): the queue drains, the
+# enforced state of C09 is reached whatever the clients do
+LIVE_MC = ["MC_store_live_gc.cfg"]
 
 
 def check_model_deviations(d):
     """vacuity guard: with a deviation switched on, TLC must report a violated invariant"""
     res = []
-    base = open(os.path.join(SPEC, "MC_store_quick_ctx.cfg")).read()
-    for dev, inv in MODEL_DEVIATIONS:
+    for dev, inv, basecfg in MODEL_DEVIATIONS:
+        base = open(os.path.join(SPEC, basecfg)).read()
         cfgp = os.path.join(d, f"dev_{dev}.cfg")
         open(cfgp, "w").write(base.replace('Dev = "none"', f'Dev = "{dev}"'))
         out, _, _, _ = tlc("MCXsStore.tla", cfgp, workers=4, timeout=900)
@@ -127,6 +133,8 @@ def run(tier, seed, regress=True, http=False, cli=False, nu=False):
     # key layout of the topic index (pure: ASSUMEs over all short byte strings)
     mcs.append(model_check("XsKeys.tla", "MC_keys.cfg", workers=2))
     res["mc"] = mcs
+    if not http and not nu:
+        res["live"] = [model_check("MCXsStore.tla", c, workers=6) for c in LIVE_MC]
     if tier == "thorough" and not http:
         res["inductive"] = apalache_inductive()
         dd = scratch("store-dev")
